@@ -7,7 +7,10 @@ CONSTANT GenDepth
 VARIABLE hist
 GInit == Init /\ hist = <<>>
 GNext == Next /\ hist' = Append(hist, last')
-GSpec == GInit /\ [][GNext]_<<vars, hist>>
+\* walks: requests 6x as likely as a reconfiguration (weights by duplication are not available: filter inside Next)
+GNextW == /\ GNext
+          /\ (last'.ev = "setw" => Len(SelectSeq(hist, LAMBDA e : e.ev = "setw")) < 2)
+GSpec == GInit /\ [][GNextW]_<<vars, hist>>
 Emit == (Len(hist) = GenDepth) => PrintT(<<"VH", ToJson(hist)>>)
 
 cW == ("r1" :> 2) @@ ("r2" :> 4)
